@@ -9,6 +9,51 @@ TRUSTED_COMMON = [
 ]
 
 PROPS = {
+    "C01": {
+        "level": "For every interleaving of packet arrivals and handler steps (the concurrent system model), every configuration, permutation and probe "
+                 "outcome: two grants (OFFER hold, ACK lease) of one address to different holders never overlap in time (no_double_lease), every grant "
+                 "is a successful UpdateClient of that handler (grant_is_update), holder identities follow the property's gloss of 'client' "
+                 "(holder_identity, holder_distinct), and the concrete store sends exactly the frames of the reference-table system "
+                 "(system_refines_table) — Lean theorems by invariant over all event lists; tied to the code by byte- and clock-exact correspondence of "
+                 "the real server.New + Run on the virtual segment (sequential scripts under a virtual clock) and by real-time bursts of overlapping "
+                 "packets, with an independent grant-overlap monitor on the tapped frames.",
+        "props": ["C01"],
+        "streams": [{"test": "TestSrvSeq", "names": ["srvseq"], "timeout": 300}, {"test": "TestSrvConc", "names": ["srvconc"], "timeout": 300}],
+        "rule": "corpus (D1-D3 histories) first; random configurations (prefix /24../30, pools of 1-8 addresses at start/middle/end, 0-2 static entries, "
+                "static_only 10%), 1-8 hosts with none / derived / custom / short / forged client identifiers, 5-45 messages of 19 kinds (DISCOVER, four "
+                "REQUEST shapes, wrong server, misaddressed, own MAC, own address, unknown type, forged ids, short hardware addresses, junk frames) "
+                "with gaps {0, 1 s, 5 s, hold-2 s, hold+2 s, lease/2, lease-3 s, lease+3 s, 3*lease}, ARP responders on 50% of the pools; "
+                "48 (thorough 600) real-time burst scenarios of 2-5 hosts; non-trivial = the server answered",
+        "trusted": ["vnet socket fakes, fake libif, testing/synctest virtual clock (sequential scripts only)",
+                    "rand.Perm / rand.Int63n: never predicted — the model is driven by the observed probe order and reply instants",
+                    "bridge from observed probes to findLoop oracles (Driver findLoopObs) is executable-only, not yet a theorem"],
+        "assumptions": ["clock readings non-decreasing; grant times are the clock of the justifying database call (not before the client sent its message)",
+                        "0 <= lease duration (configuration validation enforces >= 1 min)"],
+    },
+    "C02": {
+        "level": "Every address in an OFFER/ACK of every reachable system state lies in the managed range (network and broadcast address excluded by "
+                 "fromTo_excludes), is not the server's own, and is in the enabled dynamic range unless it is the static address of that hardware "
+                 "address; static_only blocks everything else (handed_out_allowed, static_only_blocks_dynamic, ranges_fixed) — Lean theorems over all "
+                 "interleavings; correspondence and yiaddr-vs-configuration monitor as for C01.",
+        "props": ["C02"],
+        "streams": [{"test": "TestSrvSeq", "names": ["srvseq"], "timeout": 300}, {"test": "TestCfgNew", "names": ["cfgnew"], "timeout": 300}],
+        "rule": "as C01 (configurations enumerate range positions, statics inside/outside the range, static_only; suggestions drawn from {in range, "
+                "below/above range, network/broadcast address, server address, other network, 0.0.0.0, a static, the host's last offer}) plus the "
+                "valid configurations of the C18 stream; non-trivial = the server answered",
+        "trusted": ["as C01"],
+    },
+    "C03": {
+        "level": "A statically reserved address is only ever offered/acknowledged to its hardware address, that hardware address never gets another "
+                 "address, and every well-formed broadcast DISCOVER from it is answered with an OFFER of exactly that address in every reachable "
+                 "state, for every client identifier / requested address / oracle (static_exclusive, static_only_address, static_always_offered, "
+                 "sduid_injective) — Lean theorems; correspondence and monitor as for C01 (reserved hosts take part in 70% of the scripts, with "
+                 "and without client identifiers, and forged-identifier messages name reserved hosts and the server).",
+        "props": ["C03"],
+        "streams": [{"test": "TestSrvSeq", "names": ["srvseq"], "timeout": 300}],
+        "rule": "as C01; non-trivial = the server answered",
+        "trusted": ["as C01"],
+        "assumptions": ["'well-formed' DISCOVER: IP destination broadcast, no server identifier, not the server's MAC, not asking for the server's own address"],
+    },
     "C11": {
         "level": "Refinement: for every sequence of Clients / IPDB operations with non-decreasing clocks the results of the Go data structure "
                  "(map with two keys per record, pointer identity, lazy per-key expiry) equal those of a reference table with at most one live "
